@@ -135,6 +135,9 @@ def records():
     big = T('SEQUENCE', [], fields=[('r', T('REAL'), ('default', (2 ** 53, 2, 0))), ('z', T('REAL', [('I', CTX, 0)]), ('default', (0, 2, 0)))])
     out += [(big, {'r': (2 ** 53 + 1, 2, 0)}), (big, {'r': (2 ** 52, 2, 1)}), (big, {'z': (1, 2, -2000)}),
             (big, {'r': (2 ** 53 + 1, 2, 0), 'z': (-1, 2, -1100)}), (big, {})]
+    # a decimal default next to the value of the float that python prints for it: equal as floats, not as REAL values
+    dec = T('SEQUENCE', [], fields=[('i', T('INTEGER'), 'req'), ('r', T('REAL'), ('default', (3, 10, -1)))])
+    out += [(dec, {'i': 1, 'r': (30000000000000004, 10, -17)}), (dec, {'i': 1, 'r': (3, 10, -1)}), (dec, {'i': 2})]
     return out
 
 
